@@ -58,6 +58,8 @@ def build_harness(profile="release", rustflags=None):
         log(r.stdout[-4000:])
         raise CheckError("harness does not build against /repo's working tree (cargo build failed)")
     path = os.path.join(BUILD, "target", "release" if profile == "release" else "debug", "bpv-harness")
+    if not os.path.exists(path):
+        raise CheckError("harness binary missing after build")
     log(f"[harness] built {profile} in {time.time() - t0:.1f}s")
     _built[key] = path
     return path
